@@ -178,6 +178,9 @@ def kf_match(entry, case, res):
         e, g = d.get("expected"), d.get("got")
         return bool(e and g and "subroutine" in e and "bind" in e and [t for t in e if t not in ("(", ")")] == [t for t in g if t not in ("(", ")")]
                     and len(e) == len(g) + 2)
+    if m == "module_inserted_before_procedure":
+        e, g = d.get("expected"), d.get("got")
+        return bool(e and g and e[:1] == ["procedure"] and g == ["module"] + e)
     if m == "signed_kp":
         return (res.bucket or "").startswith("reject:syntax:format") and bool(
             re.search(r"[-+]\s*\d+\s*p\s*\d*\s*(?:[fdg]|e[ns]?)\s*\d", d.get("error", ""), re.I))
